@@ -25,6 +25,7 @@ type TierOpts struct {
 	StepCap    int      `json:"stepcap,omitempty"`
 	ConcCap    int      `json:"conccap,omitempty"`
 	Background []string `json:"background,omitempty"`
+	MapOrders  bool     `json:"map_orders,omitempty"`
 	Skip       bool     `json:"skip,omitempty"`
 	Bounds     string   `json:"bounds,omitempty"`
 }
@@ -146,6 +147,11 @@ func confirm(l *Loaded, nat *Native, rel, fn string, v Violation, replayFile str
 		race = true
 		attempts = 10
 		timeout = 120 * time.Second
+	}
+	for _, c := range v.Choices {
+		if strings.HasPrefix(c, "maporder@") && attempts < 12 {
+			attempts = 12 // the native run draws its own map iteration order; give it a few draws
+		}
 	}
 	var last nativeOutcome
 	for i := 0; i < attempts; i++ {
@@ -403,6 +409,7 @@ func cmdCheck(args []string) int {
 			o.Validate = 0
 		}
 		o.NoRaces = ob.NoRaces
+		o.MapOrders = to.MapOrders
 		if to.Preempt != nil {
 			o.Preempt = *to.Preempt
 		}
@@ -612,6 +619,9 @@ func mergeTier(q, t TierOpts) TierOpts {
 	}
 	if len(t.Background) > 0 {
 		out.Background = t.Background
+	}
+	if t.MapOrders {
+		out.MapOrders = true
 	}
 	if t.Bounds != "" {
 		out.Bounds = t.Bounds
